@@ -59,6 +59,7 @@ func Intervals(g graph.Directed, eid int64) IntervalGraph {
 	var worklist linear.NodeQueue
 	worklist.Enqueue(g.Node(eid))
 	inInterval := make(map[int64]graph.Node)
+	queued := make(map[int64]bool)
 	node2interval := make(map[int64]*Interval)
 	id := int64(0)
 
@@ -73,7 +74,7 @@ func Intervals(g graph.Directed, eid int64) IntervalGraph {
 		intervals = append(intervals, &interval)
 
 		for _, node := range ns {
-			if inInterval[node.ID()] != nil {
+			if inInterval[node.ID()] != nil || queued[node.ID()] {
 				continue
 			}
 
@@ -88,7 +89,7 @@ func Intervals(g graph.Directed, eid int64) IntervalGraph {
 
 			if 0 < x && x < predsLength {
 				worklist.Enqueue(node)
-				break
+				queued[node.ID()] = true
 			}
 		}
 	}
